@@ -61,6 +61,24 @@ Section Blocks.
     fold_left (fun acc ids => scatter acc ids (map f ids)) blocks base.
 End Blocks.
 
+(* ---------- FunctionSpace.evaluate_on_block / integrate_over_block: gather semantics of the block index ----------
+   evaluate_on_block gathers EVERY per-element array (states, shapes, shapeGrads, vols, conns) with the same index
+   `block` and maps the element kernel over the gathered rows; integrate_over_block contracts the flattened result with
+   functionSpace.vols[block] flattened.  E is one element's row of all those arrays. *)
+Section Gather.
+  Context {V : Type} (vzero : V) (vadd vmul : V -> V -> V).
+  Context {E : Type} (edef : E).
+  Definition gather (elems : list E) (block : list nat) : list E := map (fun i => nth i elems edef) block.
+  Definition evaluate_on_block (kernel : E -> list V) (elems : list E) (block : list nat) : list (list V) :=
+    map kernel (gather elems block).
+  Definition vdot (a c : list V) : V := fold_right vadd vzero (map (fun p => vmul (fst p) (snd p)) (combine a c)).
+  Definition integrate_over_block (kernel vols : E -> list V) (elems : list E) (block : list nat) : V :=
+    vdot (concat (evaluate_on_block kernel elems block)) (concat (map vols (gather elems block))).
+  (* energy of one element: its kernel values against its own quadrature-point volumes *)
+  Definition element_energy (kernel vols : E -> list V) (elems : list E) (i : nat) : V :=
+    vdot (kernel (nth i elems edef)) (vols (nth i elems edef)).
+End Gather.
+
 (* ---------- one correspondence case (integer blocks): COO triples and the dense matrix ---------- *)
 Definition run_asm_case (nNodes dim : Z) (ebcs : list (list Z * Z)) (conns : list (list Z)) (kvals : list (list Z)) : list Z :=
   let nN := Z.to_nat nNodes in
@@ -73,3 +91,10 @@ Definition run_asm_case (nNodes dim : Z) (ebcs : list (list Z * Z)) (conns : lis
 
 Definition run_scatter_case (base : list Z) (blocks : list (list Z)) (vals : list Z) : list Z :=
   multi_block_scatter (fun e => nth e vals 0%Z) (map nl blocks) base.
+
+(* gather correspondence: per element the kernel values and the volumes at its quadrature points (integers) *)
+Definition run_gather_case (kv vl : list (list Z)) (block : list Z) : list Z :=
+  let elems := combine kv vl in
+  let b := nl block in
+  pack [ concat (evaluate_on_block ([], []) fst elems b);
+         [integrate_over_block 0%Z Z.add Z.mul ([], []) fst snd elems b] ].
